@@ -147,8 +147,19 @@ def run(rep, pdb, tier):
             rep.missing("slices/%s" % name, rule, "not found")
             continue
         ctx = Ctx.for_fn(pdb, fn)
-        t = ctx.term(fn["body"]["expr"]) if fn["body"].get("expr") is not None else None
-        rep.add("slices/%s" % name, rule, t == ("call", "%s::%s" % (V, callee), P(0), num(0), lin_add(N0, num(-1))), fn["body"], "", where=loc(fn["body"]))
+        # every way of returning: the identity element when the vector is empty, the whole-range slice reduction otherwise
+        from .common import return_paths
+        want = ("call", "%s::%s" % (V, callee), P(0), num(0), lin_add(N0, num(-1)))
+        paths = return_paths(ctx, fn)
+        n_full, okp = 0, bool(paths)
+        for fs_, val_, node_ in paths:
+            empty_ = any(f_[0] == "cmp" and f_[1] == "==" and {f_[2], f_[3]} == {N0, num(0)} for f_ in fs_)
+            ident_ = val_[0] == "call" and str(val_[1]).endswith("::zero" if name == "sum" else "::one") and len(val_) == 2
+            if val_ == want:
+                n_full += 1
+            elif not (empty_ and ident_):
+                okp = False
+        rep.add("slices/%s" % name, rule + " (an empty vector may return the identity element first)", okp and n_full == 1, fn["body"], "return paths: %d" % len(paths), where=loc(fn["body"]))
     # ---- abs and norms
     fn = pdb.fn("%s::abs" % V)
     rule = "abs maps Signed::abs over the full range into a fresh vector of the same length"
